@@ -82,7 +82,8 @@ def periodic_random(rng, p2s, tperms, n):
 def base(draw, tier, max_atoms=32):
     b = draw(crystal_with_supercell(max_atoms=max_atoms if tier == "quick" else 48, max_unit=6, max_det=8))
     b.update(key=draw(keys), pmat=draw(st.sampled_from(["none", "auto", "centring"])), level=draw(st.integers(1, 3)),
-             fc_decimals=draw(st.sampled_from([None, None, None, 8, 5])))
+             fc_decimals=draw(st.sampled_from([None, None, None, 8, 5])),
+             history=draw(st.sampled_from(["none", "none", "cutoff", "inplace_write"])), byteswapped=draw(st.sampled_from([False, False, True])))
     return b
 
 
@@ -139,6 +140,34 @@ def run_full(spec):
     if viol > 1e-11:
         return Out(ok=False, msg="Phonopy.symmetrize_force_constants(level=%d) output violates sum rules / permutation symmetry: %.3e "
                                  "(force_constants_decimals=%r)" % (level, viol, spec.get("fc_decimals")))
+    # history on one object: symmetrised, then edited in place (cut-off radius, or a write through the array the getter hands out),
+    # then symmetrised again - the second call has to act on the edited values
+    hist = spec.get("history", "none")
+    if hist != "none":
+        if hist == "cutoff":
+            ph.set_force_constants_zero_with_radius(0.45 * float(np.linalg.norm(scell.cell, axis=1).min()))
+        else:
+            ph.force_constants[0, 0] += np.eye(3) * s0
+            ph.force_constants[0, n - 1] -= 0.5 * s0
+        edited = np.array(ph.force_constants, copy=True)
+        v0 = max(np.abs(edited.sum(axis=1)).max(), np.abs(edited - edited.transpose(1, 0, 3, 2)).max()) / s0
+        ph.symmetrize_force_constants(level=level, show_drift=False)
+        fa = ph.force_constants
+        viol = max(np.abs(fa.sum(axis=1)).max(), np.abs(fa.sum(axis=0)).max(), np.abs(fa - fa.transpose(1, 0, 3, 2)).max()) / s0
+        if viol > 1e-11:
+            return Out(ok=False, msg="symmetrise, edit in place (%s), symmetrise again: the result violates sum rules / permutation symmetry by %.3e "
+                                     "(the edited array violated them by %.3e)" % (hist, viol, v0))
+    # the same numbers in a float64 array of the other byte order (e.g. read from a big-endian hdf5 data set)
+    if spec.get("byteswapped"):
+        fr = rng.normal(size=(n, n, 3, 3))
+        ph.force_constants = fr.astype(fr.dtype.newbyteorder())
+        ph.symmetrize_force_constants(level=level, show_drift=False)
+        fa = np.array(ph.force_constants, dtype="double")
+        ref = fr.copy()
+        symmetrize_force_constants(ref, level=level)
+        if not np.isfinite(fa).all() or np.abs(fa - ref).max() > 1e-11 * np.abs(ref).max():
+            return Out(ok=False, msg="force constants handed over in non-native byte order: symmetrised result differs from that of the same numbers "
+                                     "in native order by %.3e" % (float(np.abs(fa - ref).max()) if np.isfinite(fa).all() else float("nan")))
     # arbitrary (non-periodic) input, also input that already obeys only part of the invariances
     worst = 0.0
     for kind in ("random", "drift_free", "perm_only", "sparse"):
@@ -159,7 +188,8 @@ def run_full(spec):
             return Out(ok=False, msg="symmetrize_force_constants(level=%d) is not idempotent on %s input: %.3e" % (level, kind, idem))
         worst = max(worst, row, col, perm, idem)
     row = col = perm = idem = worst
-    return Out(ok=True, nontrivial=n >= 2, classes=["level:%d" % level, _mult_class(ph), "fc_decimals:%s" % spec.get("fc_decimals")],
+    return Out(ok=True, nontrivial=n >= 2, classes=["level:%d" % level, _mult_class(ph), "fc_decimals:%s" % spec.get("fc_decimals"), "history:" + hist,
+                                                   "byteswapped" if spec.get("byteswapped") else "native"],
                info={"err": max(e, row, col, perm, idem)})
 
 
